@@ -156,6 +156,109 @@ class RecValue:
 # ---------------------------------------------------------------------------------------------------
 # applying a contract at a call site
 
+def conforms(ctx, ty, v, depth=0):
+    """does the value v satisfy the constraints of the parameter type ty?  True / False / a z3 term / None (cannot tell)"""
+    from .values import SInt, SBool, SBytes, SStr, SList, Rec
+    if not isinstance(ty, api.T):
+        return True if (is_concrete(v) and v == ty) or v is ty else None
+    if depth > 6:
+        return None
+    if isinstance(ty, api.Secret):
+        return conforms(ctx, ty.inner, v, depth + 1)
+    if isinstance(ty, api._Int):
+        if isinstance(v, bool) or not isinstance(v, (int, SInt)):
+            return None if isinstance(v, (SBool, bool)) else False
+        conj = []
+        t = ops.int_term(v)
+        if ty.lo is not None:
+            conj.append(t >= ty.lo)
+        if ty.hi is not None:
+            conj.append(t <= ty.hi)
+        if not conj:
+            return True
+        r = z3.simplify(z3.And(*conj))
+        return True if z3.is_true(r) else (False if z3.is_false(r) else r)
+    if isinstance(ty, api._Bool):
+        return True if isinstance(v, (bool, SBool)) else False
+    if isinstance(ty, api._Bytes):
+        if not isinstance(v, (bytes, bytearray, SBytes)):
+            return False
+        n = ops.seq_len(v)
+        nt = ops.int_term(n)
+        conj = []
+        if ty.n is not None:
+            conj.append(nt == ty.n)
+        if ty.max is not None:
+            conj.append(nt <= ty.max)
+        if getattr(ty, 'min', None) is not None:
+            conj.append(nt >= ty.min)
+        if getattr(ty, 'ne', None) is not None:
+            e = ops.seq_eq_term(v, ty.ne)
+            conj.append(z3.Not(e) if not isinstance(e, bool) else z3.BoolVal(not e))
+        if not conj:
+            return True
+        r = z3.simplify(z3.And(*conj))
+        return True if z3.is_true(r) else (False if z3.is_false(r) else r)
+    if isinstance(ty, api._Str):
+        if not isinstance(v, (str, SStr)):
+            return False
+        if ty.n is None:
+            return True
+        r = z3.simplify(ops.int_term(ops.seq_len(v)) == ty.n)
+        return True if z3.is_true(r) else (False if z3.is_false(r) else r)
+    if isinstance(ty, api.Const):
+        want = ty.fresh(ctx, 'c')
+        if is_concrete(v):
+            try:
+                return bool(v == want)
+            except Exception:
+                return None
+        return None
+    if isinstance(ty, api.RecordOf):
+        cls = ty.cls if not isinstance(ty.cls, str) else api.resolve(ty.cls)[0]
+        if not isinstance(v, Rec) or not issubclass(v.cls, cls):
+            return None
+        conj = []
+        for name, ft in ty.fields.items():
+            if isinstance(ft, api.Position):
+                continue
+            if name not in v.attrs:
+                return None
+            t = conforms(ctx, ft, v.attrs[name], depth + 1)
+            if t is None or t is False:
+                return t
+            if t is not True:
+                conj.append(t)
+        return z3.And(*conj) if conj else True
+    if isinstance(ty, api.FixedList):
+        if not isinstance(v, list) or len(v) != ty.n:
+            return False if isinstance(v, list) else None
+        conj = []
+        for x in v:
+            t = conforms(ctx, ty.elem, x, depth + 1)
+            if t is None or t is False:
+                return t
+            if t is not True:
+                conj.append(t)
+        return z3.And(*conj) if conj else True
+    if isinstance(ty, api.ListOf):
+        if isinstance(v, SList):
+            return True if v.elem is ty.elem else None
+        if isinstance(v, list):
+            conj = []
+            for x in v:
+                t = conforms(ctx, ty.elem, x, depth + 1)
+                if t is None or t is False:
+                    return t
+                if t is not True:
+                    conj.append(t)
+            return z3.And(*conj) if conj else True
+        return None
+    if isinstance(ty, (api.OpaqueT, api.OpaqueElem, api.ArrayT)):
+        return True
+    return None
+
+
 def apply_contract(c, ip, f, args, kwargs):
     ctx = ip.ctx
     if c.call is not None or (c.result_is is None and c.returns is None):
@@ -171,6 +274,16 @@ def apply_contract(c, ip, f, args, kwargs):
     for k, v in c.kwargs.items():
         if k in env and not (is_concrete(env[k]) and env[k] == v):
             return NotImplemented     # this case of the contract does not cover the call
+    # the parameter TYPES of a contract are preconditions too (ranges, lengths, constant fields): the contract covers a call only if the
+    # actual arguments provably conform; otherwise the callee body is used
+    for pname, pty in c.params.items():
+        if pname not in env:
+            continue
+        t = conforms(ctx, pty, env[pname])
+        if t is None or t is False:
+            return NotImplemented
+        if t is not True and ctx.check(z3.Not(t)) != z3.unsat:
+            return NotImplemented
     sub = Interp(ctx, ip.reg, modular=False, top=None)
     if c.requires is not None:
         r = call_by_name(sub, c.requires, env)
